@@ -507,7 +507,7 @@ def r6_table_isolation(ck, cx, rule='R6'):
     ck.saw('functions', f.qn)
     params = set(f.params) | {a.arg for a in [f.node.args.vararg, f.node.args.kwarg] if a is not None}
     n = 0
-    for p in cx.enum(f, c, max_depth=0):
+    for p in cx.enum(f, c, max_depth=0, default_kwargs=True):      # the call that passes no tables: explicit `'di' in kwargs` tests are false
         origins = {}
         depth = 0
         loop_depth_at = {}
@@ -626,9 +626,19 @@ def r6_table_isolation(ck, cx, rule='R6'):
                       message='ModbusSequentialDataBlock stores the list it was given (`%s`): two blocks built from one list share their cells' % U(v_)[:60])
     cr = cx.method(sq, 'create')
     rets = [r for r in ast.walk(cr.node) if isinstance(r, ast.Return)]
+    def _fresh_local(a):
+        # a local of create() bound (once) to a list built by this very call:  blank = [0] * N ;  blank = list(...) ;  a comprehension
+        if not isinstance(a, ast.Name):
+            return False
+        binds = [n_.value for n_ in ast.walk(cr.node) if isinstance(n_, ast.Assign) and any(isinstance(t_, ast.Name) and t_.id == a.id for t_ in n_.targets)]
+        if len(binds) != 1 or a.id in cr.params:
+            return False
+        v = binds[0]
+        return isinstance(v, (ast.List, ast.ListComp, ast.Dict, ast.DictComp)) or (isinstance(v, ast.BinOp) and isinstance(v.op, ast.Mult) and (isinstance(v.left, ast.List) or isinstance(v.right, ast.List))) \
+            or (isinstance(v, ast.Call) and isinstance(v.func, ast.Name) and v.func.id in ('list', 'dict'))
     ck.ob(rule, cr.qn, 'create() builds a new block from a new list on every call',
           len(rets) == 1 and isinstance(rets[0].value, ast.Call) and U(rets[0].value.func) == cr.params[0] and
-          all(not isinstance(a, (ast.Name, ast.Attribute)) or isinstance(cx.ce.try_ev(a, cr.mod, sq, default=None), (int, str, bytes, float))
+          all(not isinstance(a, (ast.Name, ast.Attribute)) or isinstance(cx.ce.try_ev(a, cr.mod, sq, default=None), (int, str, bytes, float)) or _fresh_local(a)
               for a in rets[0].value.args),
           detail='create-not-fresh', loc=cx.floc(cr))
 
